@@ -441,6 +441,26 @@ def _asdl_class(tname):
     return getattr(ast, tname, None)
 
 
+MATERIALISE_DEPTH = 1
+
+
+def _tag_depth(tag):
+    """how many field steps below a harness-provided node this tag is: tags of materialised
+    fields are (parent tag, field name); elements of a run are ((parent tag, field), j)"""
+    d = 0
+    while isinstance(tag, tuple) and len(tag) == 2:
+        if isinstance(tag[1], str) and not isinstance(tag[0], str):
+            d += 1
+            tag = tag[0]
+        elif isinstance(tag[1], str) and isinstance(tag[0], str):
+            return d + 1
+        elif z3.is_expr(tag[1]):
+            tag = tag[0]
+        else:
+            break
+    return d
+
+
 def opaque_ast_field(o: Opaque, name):
     """Lazily create the value of field `name` of an opaque AST node of decided class."""
     if o.cands is None or len(o.cands) != 1:
@@ -463,7 +483,16 @@ def opaque_ast_field(o: Opaque, name):
             k = _asdl_class(tname)
             if k is None:
                 raise Unsupported(f"ASDL type {tname}")
-            mk = lambda t: Opaque(t, k)
+            depth = _tag_depth(o.tag)
+            if k is ast.expr and depth >= MATERIALISE_DEPTH:
+                # code that walks DOWN a source expression (a recursive helper over its
+                # fields) would materialise children for ever: below this depth a child is a
+                # leaf (Name/Constant).  The cut is recorded; a group that used it is never
+                # reported as proved (see oblig.paths_or_undecided), failures stand.
+                c.depth_cut = True
+                mk = lambda t: Opaque(t, ast.expr, cands=frozenset([ast.Name, ast.Constant]))
+            else:
+                mk = lambda t: Opaque(t, k)
         if q == "":
             v = mk(tag)
         elif q == "?":
